@@ -80,6 +80,18 @@ pub struct CliExtra {
     pub tty_stderr: bool,
     /// restrict the child to one CPU (sched_setaffinity in the child before exec)
     pub one_cpu: bool,
+    /// feed piped stdin in chunks of at most this many bytes with occasional pauses (short reads at arbitrary offsets)
+    pub stdin_dribble: Option<usize>,
+}
+
+static CLI_RUNS: std::sync::atomic::AtomicU64 = std::sync::atomic::AtomicU64::new(0);
+static CLI_DRIBBLED: std::sync::atomic::AtomicU64 = std::sync::atomic::AtomicU64::new(0);
+static CLI_ONE_CPU: std::sync::atomic::AtomicU64 = std::sync::atomic::AtomicU64::new(0);
+
+/// (CLI runs, runs whose stdin arrived in small chunks, runs restricted to one CPU) of this stage process
+pub fn cli_run_counters() -> (u64, u64, u64) {
+    use std::sync::atomic::Ordering::Relaxed;
+    (CLI_RUNS.load(Relaxed), CLI_DRIBBLED.load(Relaxed), CLI_ONE_CPU.load(Relaxed))
 }
 
 thread_local! {
@@ -96,8 +108,27 @@ pub fn with_cli_extra<T>(x: CliExtra, f: impl FnOnce() -> T) -> T {
 
 /// same, with extra environment variables and an optional working directory
 pub fn run_cli_env(ctx: &Ctx, args: &[String], stdin: Option<&[u8]>, lim: &CliLimits, env: &[(&str, &str)], cwd: Option<&str>) -> CliOut {
-    let extra = CLI_EXTRA.with(|c| c.borrow().clone());
+    let mut extra = CLI_EXTRA.with(|c| c.borrow().clone());
     let valgrind = ctx.opt("valgrind").is_some();
+    // delivery / environment dimensions applied across *all* CLI stages, chosen from the command line itself (so a run
+    // is reproducible): every other piped stdin arrives in small chunks; one run in six sees a single CPU
+    {
+        let h = refmodel::rng::hash_bytes(args.join("\u{1}").as_bytes()) ^ refmodel::rng::mix(stdin.map_or(0, |d| d.len() as u64));
+        if stdin.is_some() && extra.stdin_dribble.is_none() && h % 2 == 0 {
+            extra.stdin_dribble = Some([1usize, 7, 64, 4096][((h >> 8) % 4) as usize]);
+        }
+        if !valgrind && !extra.one_cpu && (h >> 16) % 6 == 3 {
+            extra.one_cpu = true;
+        }
+        use std::sync::atomic::Ordering::Relaxed;
+        CLI_RUNS.fetch_add(1, Relaxed);
+        if stdin.is_some() && extra.stdin_dribble.is_some() {
+            CLI_DRIBBLED.fetch_add(1, Relaxed);
+        }
+        if extra.one_cpu {
+            CLI_ONE_CPU.fetch_add(1, Relaxed);
+        }
+    }
     let mut cmd = if valgrind {
         let mut c = Command::new("valgrind");
         c.args(["--quiet", "--error-exitcode=97", "--errors-for-leak-kinds=none", "--leak-check=no"]);
@@ -197,8 +228,30 @@ pub fn run_cli_env(ctx: &Ctx, args: &[String], stdin: Option<&[u8]>, lim: &CliLi
     if let Some(data) = stdin {
         let mut si = child.stdin.take().unwrap();
         let data = data.to_vec();
-        feeder = Some(std::thread::spawn(move || {
-            let _ = si.write_all(&data);
+        let dribble = extra.stdin_dribble;
+        feeder = Some(std::thread::spawn(move || match dribble {
+            None => {
+                let _ = si.write_all(&data);
+            }
+            Some(maxc) => {
+                let mut off = 0usize;
+                let mut x = 0x9E37_79B9_7F4A_7C15u64 ^ data.len() as u64;
+                let t0 = Instant::now();
+                while off < data.len() {
+                    x = x.wrapping_mul(6364136223846793005).wrapping_add(1442695040888963407);
+                    // after two seconds of dribbling the rest goes out at once (bounded cost on big inputs)
+                    let n = if t0.elapsed() > Duration::from_secs(2) { data.len() } else { 1 + ((x >> 33) as usize % maxc.max(1)) };
+                    let end = (off + n).min(data.len());
+                    if si.write_all(&data[off..end]).is_err() {
+                        break;
+                    }
+                    let _ = si.flush();
+                    off = end;
+                    if (x >> 20) % 16 == 0 {
+                        std::thread::sleep(Duration::from_micros(40));
+                    }
+                }
+            }
         }));
     }
     let mut so = child.stdout.take().unwrap();
